@@ -1,7 +1,7 @@
 (* C05 — deciding obligations. Statements only, closed by the lemmas proved in Circ/*Proofs.v. *)
 From Coq Require Import ZArith List Bool Permutation.
 From VF Require Import Circ.Moments Circ.MomentCalls Circ.Placement Circ.Insert Circ.BatchEdit Circ.History
-  Circ.MomentsProofs Circ.InsertProofs Circ.PlacementProofs Circ.CacheProofs Circ.BatchProofs Circ.OrderProofs Circ.TotalProofs Circ.EquivProofs Circ.HistoryProofs Circ.ReturnIndexProofs.
+  Circ.MomentsProofs Circ.InsertProofs Circ.PlacementProofs Circ.CacheProofs Circ.BatchProofs Circ.OrderProofs Circ.TotalProofs Circ.EquivProofs Circ.HistoryProofs Circ.ReturnIndexProofs Circ.RangeOrderProofs.
 Import ListNotations.
 Open Scope Z_scope.
 
@@ -278,6 +278,37 @@ Theorem C05_insert_returns_index_behind_inserted_in_history : forall h i its s c
 Proof. exact history_insert_returns_behind. Qed.
 Print Assumptions C05_insert_returns_index_behind_inserted_in_history.
 
+(* D4 for insert_into_range, inserted operations among themselves: the call writes its operations with one
+   forward-moving cursor, so the operations written into the range are, in the order given, a subsequence of
+   all_operations() of the result - for every occupancy of the range, whether or not an earlier moment is
+   blocked for an earlier operation and free for a later one; operations that do not fit are handed to
+   insert(end, rest), which does not disturb them; if all fit the call returns `end` *)
+Theorem C05_insert_into_range_keeps_given_order : forall c its s e c' z,
+  insert_into_range c its s e = (c', inl z) ->
+  exists placed rest ms1,
+    range_loop (moms c) (Z.to_nat s) (Z.to_nat e) (items_ops its) = (ms1, rest, None) /\
+    items_ops its = placed ++ rest /\ sub placed (lin (moms c')) /\
+    (rest = [] -> moms c' = ms1 /\ z = e).
+Proof. exact insert_into_range_given_order. Qed.
+Print Assumptions C05_insert_into_range_keeps_given_order.
+
+(* ... read pairwise: of two operations written into the range the one given first comes first *)
+Theorem C05_insert_into_range_pairs_in_given_order : forall c its s e c' z,
+  insert_into_range c its s e = (c', inl z) ->
+  exists placed rest, items_ops its = placed ++ rest /\
+    (rest = [] -> z = e) /\
+    forall x y, sub [x; y] placed -> sub [x; y] (lin (moms c')).
+Proof. exact insert_into_range_pairs_in_given_order. Qed.
+Print Assumptions C05_insert_into_range_pairs_in_given_order.
+
+(* the loop itself, for every cursor position: moments in front of the cursor untouched, written operations in
+   the order given behind it *)
+Theorem C05_range_loop_keeps_given_order : forall ops ms i e ms' rest,
+  (e <= length ms)%nat -> range_loop ms i e ops = (ms', rest, None) ->
+  exists placed, ops = placed ++ rest /\ firstn i ms' = firstn i ms /\ sub placed (lin (skipn i ms')).
+Proof. exact range_loop_given_order. Qed.
+Print Assumptions C05_range_loop_keeps_given_order.
+
 (* the order clause is refuted for two calls (open defects of /repo, known findings order:concat and
    order:frontier); batch_insert was a third until fix b5fcbdd, see batch_insert_repaired_example *)
 Theorem C05_concat_ragged_order_refuted :
@@ -332,3 +363,12 @@ Example C05_returned_index_example :
 Proof.
   cbv zeta. split; [intros p Hp; discriminate|]. eexists. split; vm_compute; reflexivity.
 Qed.
+
+(* the hypotheses of C05_insert_into_range_keeps_given_order are satisfiable on the critical shape: the first moment
+   of the range is blocked for the first operation (shared qubit 0) and free for the second, which shares qubit 1 with
+   the first: [Z(0)] [] [] ; insert_into_range([CZ(0,1), X(1)], 0, 3) gives [Z(0)] [CZ(0,1)] [X(1)] and returns 3 *)
+Example C05_insert_into_range_order_example :
+  let c := from_moments [[mkop 1 [0] [] [] [] true]; []; []] in
+  let its := [IOp (mkop 2 [0; 1] [] [] [] true); IOp (mkop 3 [1] [] [] [] true)] in
+  exists c', insert_into_range c its 0 3 = (c', inl 3) /\ uid_moms (moms c') = [[1]; [2]; [3]].
+Proof. exact insert_into_range_order_example. Qed.
